@@ -1,9 +1,197 @@
+(* Properties_C04.v — property C04: on linear-Gaussian models the unscented Kalman
+   prediction and correction return the mean, covariance and measurement likelihood
+   of the Kalman prediction and correction, for both constructors (noise declared
+   additive / noise entering through the model with the belief augmented by the
+   noise statistics), every component, every (alpha, beta, kappa) with
+   c = n + lambda > 0.  Statements only; each is closed by a lemma of C04_Proofs
+   (corollaries of C03's affine exactness).  F is an arbitrary realFieldType; the
+   square-root oracles enter through their contracts (premises sqrt_contract,
+   sq_contract).  plain_layout L n: n linear rows, no circular component, no noise
+   rows (C04 quantifies over linear models; for them the measurement description's
+   total_size, used as slice offset, equals the width of the cross-covariance blocks). *)
 Require Import ZArith QArith List.
-Require Import BFL.Ops BFL.ListOps BFL.C01_Model BFL.C03_Model BFL.C04_Model.
+Require Import BFL.Ops BFL.ListOps BFL.Density BFL.C01_Model BFL.C02_Model BFL.C03_Model BFL.C04_Model.
 From mathcomp Require Import all_ssreflect all_algebra.
-Require Import BFL.MxOps BFL.LinAlg BFL.C04_Proofs.
+Require Import BFL.MxOps BFL.LinAlg BFL.C03_Proofs BFL.C04_Proofs.
+Import GRing.Theory Num.Theory.
+Local Open Scope ring_scope.
 
-Theorem C04_predict_skip (O : MatOps) n (L : layout) a b k sp ss f (Q : M O n n) q prev :
-  sp || ss -> ukf_predict_additive L a b k sp ss f Q q prev = prev.
-Proof. exact: ukf_predict_additive_skip. Qed.
-Print Assumptions C04_predict_skip.
+Section C04.
+Variable F : realFieldType.
+Variable tr : Transc F.
+Variable sq : forall n, 'M[F]_n -> 'M[F]_n.
+Variable eg : forall n, 'M[F]_n -> 'M[F]_(n,1).
+Let O := MxMat tr sq eg.
+Variable sqrt_contract : forall x : F, 0 <= x -> t_sqrt tr x * t_sqrt tr x = x.
+Variable sq_contract : forall n (P : 'M[F]_n), psd P -> sq n P *m (sq n P)^T = P.
+
+(* x' = F x + w, noise additive: every component (F m, F P F^T + Q), same count and
+   order; the predicted mixture is a fresh one (layout of the state description,
+   uniform weights) *)
+Theorem C04_predict_additive (n : nat) (alpha beta kappa : F) (prev : mixture O n n)
+        (Lstate : layout) (Ft Q : 'M[F]_n) (q : nat) :
+  plain_layout (mx_layout prev) n -> (forall mc, In mc (mx_comps prev) -> psd mc.2) ->
+  l_lin Lstate = n -> l_circ Lstate = 0%N ->
+  0 < w_c (ut_weights (O:=O) n alpha beta kappa) ->
+  ukf_predict_additive (O:=O) Lstate alpha beta kappa false false (linear_cols (O:=O) Ft) Q q prev =
+  mkMix (O:=O) (l_noiseless Lstate) (List.map (kf_predict_comp (O:=O) Ft Q) (mx_comps prev))
+        (repeat (1 / (length (mx_comps prev))%:R) (length (mx_comps prev))).
+Proof. by move=> *; exact: ukf_predict_additive_linear. Qed.
+
+(* x' = F x + B w, belief augmented with the noise statistics Qw: the Kalman
+   prediction with Q = B Qw B^T *)
+Theorem C04_predict_augmented (n q : nat) (alpha beta kappa : F) (prev : mixture O n n)
+        (Ldesc Lstate : layout) (Ft : 'M[F]_n) (B : 'M[F]_(n,q)) (Qw : 'M[F]_q) :
+  plain_layout (mx_layout prev) n -> (forall mc, In mc (mx_comps prev) -> psd mc.2) ->
+  l_lin Lstate = n -> l_circ Lstate = 0%N ->
+  l_dcov Ldesc = (n + q)%N -> psd Qw ->
+  0 < w_c (ut_weights (O:=O) (n + q) alpha beta kappa) ->
+  ukf_predict_generic (O:=O) Ldesc Lstate alpha beta kappa false false
+                      (linear_cols (O:=O) (row_mx Ft B)) Qw prev =
+  mkMix (O:=O) (l_noiseless Lstate)
+        (List.map (kf_predict_comp (O:=O) Ft (B *m Qw *m B^T)) (mx_comps prev))
+        (repeat (1 / (length (mx_comps prev))%:R) (length (mx_comps prev))).
+Proof. by move=> *; exact: ukf_predict_generic_linear. Qed.
+
+(* the Kalman prediction of one component referred to above is C02's *)
+Theorem C04_kf_predict_is_C02 (n : nat) (Ft Q : 'M[F]_n) (xP : 'cV[F]_n * 'M[F]_n) :
+  kf_predict_comp (O:=O) Ft Q xP = (Ft *m xP.1, kf_predict_cov (O:=O) Ft Q xP.2).
+Proof. exact: kf_predict_comp_C02. Qed.
+
+(* y = H x + v, noise additive: the whole outcome of correctStep — corrected
+   components written over the first entries of the output object (its other
+   components, layout and weights untouched), innovations and innovation
+   covariances kept for the likelihood — is that of C01's Kalman correction *)
+Theorem C04_correct_additive (n m : nat) (alpha beta kappa : F) (H : 'M[F]_(m,n)) (y : 'cV[F]_m)
+        (pred old : mixture O n n) (st : ukf_state O m) (Lmeas Ldesc : layout) (R : 'M[F]_m) :
+  plain_layout (mx_layout pred) n -> (forall mc, In mc (mx_comps pred) -> psd mc.2) ->
+  plain_layout Lmeas m -> l_lin Ldesc = n -> l_circ Ldesc = 0%N ->
+  0 < w_c (ut_weights (O:=O) n alpha beta kappa) ->
+  ukf_correct_additive (O:=O) Ldesc Lmeas alpha beta kappa false (Some y)
+                       (fun X => Some (linear_cols (O:=O) H X)) (lin_innovation_cols (O:=O))
+                       R pred old st =
+  kf_result H y pred old R.
+Proof. by move=> *; exact: ukf_correct_additive_linear. Qed.
+
+(* y = H x + D v, belief augmented with the noise statistics Rv: the Kalman
+   correction with R = D Rv D^T *)
+Theorem C04_correct_augmented (n q m : nat) (alpha beta kappa : F) (H : 'M[F]_(m,n)) (y : 'cV[F]_m)
+        (pred old : mixture O n n) (st : ukf_state O m) (Lmeas Ldesc : layout)
+        (D : 'M[F]_(m,q)) (Rv : 'M[F]_q) :
+  plain_layout (mx_layout pred) n -> (forall mc, In mc (mx_comps pred) -> psd mc.2) ->
+  plain_layout Lmeas m -> l_dcov Ldesc = (n + q)%N -> psd Rv ->
+  0 < w_c (ut_weights (O:=O) (n + q) alpha beta kappa) ->
+  ukf_correct_generic (O:=O) Ldesc Lmeas alpha beta kappa false (Some y)
+                      (fun X => Some (linear_cols (O:=O) (row_mx H D) X)) (lin_innovation_cols (O:=O))
+                      Rv pred old st =
+  kf_result H y pred old (D *m Rv *m D^T).
+Proof. by move=> *; exact: ukf_correct_generic_linear. Qed.
+
+(* getLikelihood afterwards: the Kalman likelihoods N(y; H m_i, H P_i H^T + R) of C01 *)
+Theorem C04_likelihood_additive (n m : nat) (alpha beta kappa : F) (H : 'M[F]_(m,n)) (y : 'cV[F]_m)
+        (pred old : mixture O n n) (st : ukf_state O m) (Lmeas Ldesc : layout) (R : 'M[F]_m) :
+  plain_layout (mx_layout pred) n -> (forall mc, In mc (mx_comps pred) -> psd mc.2) ->
+  plain_layout Lmeas m -> l_lin Ldesc = n -> l_circ Ldesc = 0%N ->
+  0 < w_c (ut_weights (O:=O) n alpha beta kappa) -> mx_comps pred <> [::] ->
+  ukf_likelihood (O:=O)
+    (ukf_correct_additive (O:=O) Ldesc Lmeas alpha beta kappa false (Some y)
+       (fun X => Some (linear_cols (O:=O) H X)) (lin_innovation_cols (O:=O)) R pred old st).1.2 =
+  Some (List.map (kf_likelihood (O:=O))
+          (kf_correct (O:=O) H R y (List.map (fun xP => mkGcomp (O:=O) xP.1 xP.2) (mx_comps pred)))).
+Proof. by move=> *; exact: ukf_likelihood_additive_linear. Qed.
+
+Theorem C04_likelihood_augmented (n q m : nat) (alpha beta kappa : F) (H : 'M[F]_(m,n)) (y : 'cV[F]_m)
+        (pred old : mixture O n n) (st : ukf_state O m) (Lmeas Ldesc : layout)
+        (D : 'M[F]_(m,q)) (Rv : 'M[F]_q) :
+  plain_layout (mx_layout pred) n -> (forall mc, In mc (mx_comps pred) -> psd mc.2) ->
+  plain_layout Lmeas m -> l_dcov Ldesc = (n + q)%N -> psd Rv ->
+  0 < w_c (ut_weights (O:=O) (n + q) alpha beta kappa) -> mx_comps pred <> [::] ->
+  ukf_likelihood (O:=O)
+    (ukf_correct_generic (O:=O) Ldesc Lmeas alpha beta kappa false (Some y)
+       (fun X => Some (linear_cols (O:=O) (row_mx H D) X)) (lin_innovation_cols (O:=O)) Rv pred old st).1.2 =
+  Some (List.map (kf_likelihood (O:=O))
+          (kf_correct (O:=O) H (D *m Rv *m D^T) y
+                      (List.map (fun xP => mkGcomp (O:=O) xP.1 xP.2) (mx_comps pred)))).
+Proof. by move=> *; exact: ukf_likelihood_generic_linear. Qed.
+
+(* the innovation covariance both filters invert is invertible when R is SPD (P only PSD) *)
+Theorem C04_innovation_cov_invertible (n m : nat) (H : 'M[F]_(m,n)) (R : 'M[F]_m) (P : 'M[F]_n) :
+  psd P -> spd R -> H *m P *m H^T + R \in unitmx.
+Proof. exact: ukf_Pyy_unit. Qed.
+End C04.
+
+(* early-return paths, every arithmetic instance, every model: skip flags hand back the
+   previous belief; a skipped correction leaves belief and kept state alone; a correction
+   without measurement hands back the predicted belief and reports no likelihood *)
+Theorem C04_skip_is_identity (O : MatOps) n q (L Ld : layout) a b k sp ss f g (Q : M O n n) (Qw : M O q q) qn
+        (prev : mixture O n n) :
+  sp || ss ->
+  ukf_predict_additive L a b k sp ss f Q qn prev = prev /\
+  ukf_predict_generic Ld L a b k sp ss g Qw prev = prev.
+Proof. exact: ukf_skip_identity. Qed.
+
+Theorem C04_no_measurement_is_identity (O : MatOps) n q m (Ld Lm : layout) a b k (skip : bool) (y : option (M O m 1))
+        f f' g (R : M O m m) (Rv : M O q q) (pred old : mixture O n n) st :
+  let ra := ukf_correct_additive Ld Lm a b k skip y f g R pred old st in
+  let rg := ukf_correct_generic Ld Lm a b k skip y f' g Rv pred old st in
+  (skip -> ra = (pred, st, [::]) /\ rg = (pred, st, [::])) /\
+  (~~ skip -> y = None ->
+   [/\ ra.1.1 = pred, rg.1.1 = pred, ukf_likelihood ra.1.2 = None & ukf_likelihood rg.1.2 = None]).
+Proof. exact: ukf_idle_identity. Qed.
+
+(* a predicted measurement or an innovation that cannot be evaluated: the predicted belief
+   is handed back and no likelihood is reported afterwards (whatever was kept before) *)
+Theorem C04_unusable_measurement_is_identity (O : MatOps) n m ms (y : M O m 1) g
+        (ut : option (ut_result O m m n)) (pred old : mixture O n n) st :
+  (ut = None \/ exists r, ut = Some r /\ g (List.map (fun u => uc_mean u) (ur_comps r)) y = None) ->
+  let res := ukf_correct_finish ms y g ut pred old st in
+  [/\ res.1.1 = pred, res.2 = [::] & ukf_likelihood res.1.2 = None].
+Proof. exact: ukf_correct_finish_unusable. Qed.
+
+(* non-vacuity: the layout premises are those of the layouts the entry points build *)
+Example C04_layout_premises (n q m : nat) :
+  plain_layout (mkLayout n 0 false 0) n /\ plain_layout (mkLayout m 0 false 0) m /\
+  l_dcov (mkLayout n 0 false q) = (n + q)%N /\ l_lin (mkLayout n 0 false m) = n.
+Proof. by []. Qed.
+
+(* ... and the executable instance of the same model, over exact rationals with an exact
+   square-root oracle (P = A A^T, A = [[2,0],[1,1]]; alpha = 1, kappa = 2, n = 2: c = 4,
+   sqrt c = 2), returns the Kalman correction of C01 for y = [1 2] x + v, R = 1/2, y = 3 *)
+Definition QsqOps4 : SOps :=
+  {| T := Q; s0 := s0 QOps; s1 := s1 QOps; sadd := sadd QOps; ssub := ssub QOps; smul := smul QOps; sdiv := sdiv QOps;
+     sopp := sopp QOps; sleb := sleb QOps; sltb := sltb QOps; sofZ := sofZ QOps;
+     ssqrt := fun x => if Qeq_bool x (4#1) then (2#1) else x;
+     sexp := sexp QOps; sln := sln QOps; scos := scos QOps; ssin := ssin QOps; sacos := sacos QOps;
+     satan2 := satan2 QOps; spi := spi QOps; stiny := stiny QOps |}.
+Definition QM4 := ListMat QsqOps4 (fun _ _ => [:: [:: 2#1; 0#1]; [:: 1#1; 1#1]]%Q) (fun _ A => A).
+Example C04_concrete_Q :
+  let L := mkLayout 2 0 false 0 in
+  let P := [:: [:: 4#1; 2#1]; [:: 2#1; 2#1]]%Q in
+  let x := [:: [:: 1#1]; [:: -1#1]]%Q in
+  let Hm := [:: [:: 1#1; 2#1]]%Q in
+  let Rm := [:: [:: 1#2]]%Q in
+  let ym := [:: [:: 3#1]]%Q in
+  let pred := @mkMix QM4 2 2 L [:: (x, P)] [:: 1#1]%Q in
+  let old := @mkMix QM4 2 2 L [:: (ym ++ ym, P)] [:: 1#8]%Q in
+  let res := @ukf_correct_additive QM4 2 1 (mkLayout 2 0 false 1) (mkLayout 1 0 false 0) (1#1)%Q (2#1)%Q (2#1)%Q false
+               (Some ym) (fun X => Some (@linear_cols QM4 2 1 Hm X)) (@lin_innovation_cols QM4 1) Rm pred old
+               (@mkUkfState QM4 1 [::] [::]) in
+  let kf := @kf_correct_one QM4 2 1 Hm Rm ym (@mkGcomp QM4 2 x P) in
+  match mx_comps res.1.1 with
+  | [:: (xc, Pc)] => qmx_eqb xc (gmean (ko_comp kf)) && qmx_eqb Pc (gcov (ko_comp kf))
+                     && qmx_eqb xc [:: [:: 105#41]; [:: 7#41]]%Q
+  | _ => false
+  end = true.
+Proof. vm_compute. reflexivity. Qed.
+
+Print Assumptions C04_predict_additive.
+Print Assumptions C04_predict_augmented.
+Print Assumptions C04_kf_predict_is_C02.
+Print Assumptions C04_correct_additive.
+Print Assumptions C04_correct_augmented.
+Print Assumptions C04_likelihood_additive.
+Print Assumptions C04_likelihood_augmented.
+Print Assumptions C04_innovation_cov_invertible.
+Print Assumptions C04_skip_is_identity.
+Print Assumptions C04_no_measurement_is_identity.
+Print Assumptions C04_unusable_measurement_is_identity.
